@@ -3,6 +3,7 @@
 
     implname <prefix byte, decimal> <index, decimal>          → <hex name>
     clean <sg 0|1> <hex name>                                → val true|false | ub <kind>
+    cleandir <sg 0|1> <hex name,hex name,…>                  → <hex names `remove` is called on, in order> | - | ub <kind>
     glob <hex name>                                          → true|false
     dirname|basename|header <hex path>                       → <hex>
     filecount <n> <fpf>                                      → <k>
@@ -122,6 +123,21 @@ def handle (line : String) : String :=
   | ["clean", sg, h] =>
     match unhex h with
     | some n => showOutB (cleanDecision (sg == "1") n)
+    | none => "err hex"
+  | ["cleandir", sg, ls] =>
+    -- the whole match loop (Model.cleanLoopF: a fold with the scan flag as carried state) over a listing in the GIVEN order
+    match parseNames ls with
+    | some names =>
+      let st0 : St := { fs := fun _ => some (.file false), fpf := 0 }
+      match cleanLoopF (sg == "1") (names.filter (globMatch globPattern)) flagInit st0 with
+      | .val st =>
+        let r := st.events.filterMap fun e => match e with
+          | .remove _ n _ => some (hex n)
+          | _ => none
+        if r.isEmpty then "-" else ",".intercalate r
+      | .ub k => s!"ub {k.name}"
+      | .trap t => s!"trap {t.code}"
+      | .oof => "oof"
     | none => "err hex"
   | ["glob", h] =>
     match unhex h with
